@@ -650,7 +650,7 @@ func (h *vSd) scripted(kind int, r *vrand) {
 		h.do("sd write 0 0 900")
 		h.do("sd gather 0") // two packets (MTU)
 		h.do("sd write 0 %d 700", h.ns-1)
-		h.do("sd shutdown 0") // SHUTDOWN-PENDING
+		h.do("sd shutdown 0")  // SHUTDOWN-PENDING
 		h.do("sd write 0 0 5") // rejected
 		h.do("sd open 0")      // rejected
 		h.do("sd deliver 0 0")
